@@ -105,6 +105,13 @@ Theorem C19_meta_items : forall fl ops,
 Proof. exact meta_items. Qed.
 Print Assumptions C19_meta_items.
 
+(** the same for a client that posts several edited meta entities - of existing datasets or tombstones of deleted
+    ones, in any order - back to core.Dataset: every posted entity is synced on its own, the invariant is kept *)
+Theorem C19_setpubm_inv : forall fl l k,
+  cf_txn_pub fl = true -> cf_rm_pub fl = true -> cinv fl zero k -> cinv fl zero (do_setpubm fl k l).
+Proof. intros fl l k Htp Hrp. exact (do_setpubm_inv fl l Htp Hrp k). Qed.
+Print Assumptions C19_setpubm_inv.
+
 (** the invariant behind it (registry codes injective and below nextDatasetID, unused internal ids empty, counting
     invariant of every dataset, latest pointer of core.Dataset = last version) holds in every reachable state *)
 Theorem C19_reachable_inv : forall fl ops,
@@ -145,6 +152,14 @@ Example C19_counts_pinned_store :
   let fl := {| cf_eq := {| f_lenkeys := true; f_objneq := true |}; cf_dup := DupStoredAndLocal;
                cf_count_core := true; cf_txn_pub := true; cf_rm_pub := true; cf_rmw_atomic := true |} in
   snap_spec (snap_of fl h_counts) = true /\ snap_spec (snap_of fl h_manage) = true.
+Proof. vm_compute. split; reflexivity. Qed.
+
+(** a tombstone with public namespaces posted in front of live datasets: all of them are synced *)
+Example C19_setpubm_tombstone_first :
+  let k := do_setpubm fl_fixed (run_cops fl_fixed [OCreate 1 pubx; OCreate 2 plain; OCreate 3 plain; ODelete 1])
+                      [(1, Some 1); (2, Some 2); (3, Some 3)] in
+  snap_spec (predict k [0; 1; 2; 3]) = true
+  /\ map (fun n => option_map (fun r => s_pub (r_set r)) (assoc n (k_reg k))) [1; 2; 3] = [None; Some (Some 2); Some (Some 3)].
 Proof. vm_compute. split; reflexivity. Qed.
 
 (** ** the pinned tree: refutations by computation *)
